@@ -15,6 +15,7 @@ fn case_h(depth: u8, h: u64) -> Value {
 
 /// from_ring direction on one RING index.
 pub fn check_ring_index(depth: u8, r: u64, geometry: bool, part: &mut Part) -> Option<Viol> {
+  journal("Layer::from_ring", || case_r(depth, r));
   let layer = nested::get_or_create(depth);
   let nh = n_hash(depth);
   let n = 1u64 << depth;
@@ -60,6 +61,7 @@ pub fn check_ring_index(depth: u8, r: u64, geometry: bool, part: &mut Part) -> O
 
 /// to_ring direction on one NESTED cell.
 pub fn check_nested_cell(depth: u8, h: u64, part: &mut Part) -> Option<Viol> {
+  journal("Layer::to_ring", || case_h(depth, h));
   let layer = nested::get_or_create(depth);
   let n = 1u64 << depth;
   let mk = |api: &str, kind: &str, expected: String, actual: String| Some(Viol { api: api.into(), kind: kind.into(), case: case_h(depth, h), expected, actual });
